@@ -718,8 +718,8 @@ pub enum Op {
     /// Returns actual count in a hidden register
     SpreadArray { dst: Register, src: Register },
 
-    /// Create rest array from remaining arguments
-    CreateRestArray { dst: Register, start_index: u8 },
+    /// Create rest array from the remaining elements of the iterator in r[iterator]
+    CreateRestArray { dst: Register, iterator: Register },
 
     /// Create object rest from source object, excluding specified keys
     /// excluded_keys is a constant index pointing to a Vec<JsString> in the constant pool
